@@ -72,7 +72,7 @@ func (c *HttpCase) raw() []byte {
 	if len(body) > 0 && !hasCL {
 		fmt.Fprintf(&b, "Content-Length: %d\r\n", len(body))
 	}
-	if c.Surface == "api" {
+	if c.Surface == "api" || c.Surface == "l3" {
 		b.WriteString("Connection: close\r\n")
 	}
 	b.WriteString("\r\n")
@@ -253,6 +253,18 @@ func genHttpCase(surface string) func(t *rapid.T) HttpCase {
 				c.Tail = &Blob{Hex: rapid.SampledFrom([]string{"", "00", "8100", "818000000000", "88820000000003e8", "8a00", "81ff7fffffffffffffff", "474554202f20485454502f312e310d0a0d0a", "ffffffff"}).Draw(t, "tailHex"),
 					Seed: 5, Len: rapid.SampledFrom([]int{0, 0, 10, 5000}).Draw(t, "tailLen")}
 			}
+		case "l3":
+			// lal's real HTTP listener (HLS, HTTP-FLV and HTTP-TS on one address): mostly HLS targets
+			if rapid.IntRange(0, 3).Draw(t, "l3Sub") == 0 {
+				c.Target = rapid.SampledFrom(subTargets).Draw(t, "l3SubTarget")
+			} else {
+				c.Target = rapid.SampledFrom(hlsTargets).Draw(t, "l3HlsTarget")
+			}
+			c.HlsSession = rapid.Bool().Draw(t, "l3Session")
+			c.Feed = true
+			if rapid.IntRange(0, 3).Draw(t, "l3Hdrs") == 0 {
+				c.Hdrs = [][2]string{{"Range", rapid.SampledFrom([]string{"bytes=0-", "bytes=-1", "x"}).Draw(t, "range")}, {"X-Forwarded-For", "1.2.3.4, x"}}
+			}
 		case "hls":
 			c.Target = rapid.SampledFrom(hlsTargets).Draw(t, "hlsTarget")
 			c.HlsSession = rapid.Bool().Draw(t, "hlsSession")
@@ -328,7 +340,7 @@ func runHttpSub(c HttpCase) *pbt.Violation {
 	if v := waitReturn(s, wait, "logic.(*HttpServerHandler).ServeSubSession", "http-sub"); v != nil {
 		return v
 	}
-	return probe(s)
+	return probe(s, fd)
 }
 
 func runHls(c HttpCase) *pbt.Violation {
@@ -338,9 +350,10 @@ func runHls(c HttpCase) *pbt.Violation {
 	}
 	s := newServer()
 	defer s.Close()
+	var fd *feed
 	if c.Feed {
-		fd, v := startFeed(s)
-		if v != nil {
+		var v *pbt.Violation
+		if fd, v = startFeed(s); v != nil {
 			return v
 		}
 		fd.frames(30) // > one 500 ms fragment
@@ -365,13 +378,176 @@ func runHls(c HttpCase) *pbt.Violation {
 			}
 		}
 	}
-	return probe(s)
+	return probe(s, fd)
 }
 
 // hls handlers start a ticker goroutine that lal never stops; one per (process, key, out path) would be ideal, but
 // the observer is the per-case manager: create them per case and accept the leaked tickers (bounded by the case count).
 func hlsHandler(s *inproc.Server, key string) *hls.ServerHandler {
 	return hls.NewServerHandler(s.Cfg.HlsConfig.OutPath, s.Cfg.HlsConfig.UrlPattern, key, 30000, s.SM)
+}
+
+// ---- run: lal's real HTTP listener (L3): ServerManager.RunLoop, serveHls / ServeSubSession behind net/http ----------
+
+type l3Env struct {
+	s       *inproc.Server
+	addr    string
+	session bool
+	uses    int
+	fd      *feed
+}
+
+var (
+	l3Mu  sync.Mutex
+	l3Cur = map[bool]*l3Env{}
+)
+
+func l3Get(addr, target string) (status string, err error) {
+	conn, err := net.DialTimeout("tcp", addr, 10*time.Second)
+	if err != nil {
+		return "", err
+	}
+	defer conn.Close()
+	_ = conn.SetDeadline(time.Now().Add(20 * time.Second))
+	_, _ = conn.Write([]byte("GET " + target + " HTTP/1.1\r\nHost: " + addr + "\r\nConnection: close\r\n\r\n"))
+	line, err := bufio.NewReader(conn).ReadString('\n')
+	return line, err
+}
+
+// l3Server returns the process' lal instance whose ServerManager.RunLoop serves HLS, HTTP-FLV and HTTP-TS on one
+// loopback address (with or without HLS sub-session mode), starting it if necessary.
+func l3Server(session bool) *l3Env {
+	l3Mu.Lock()
+	defer l3Mu.Unlock()
+	if e := l3Cur[session]; e != nil && e.uses < 100 {
+		e.uses++
+		return e
+	}
+	if e := l3Cur[session]; e != nil {
+		e.s.Close()
+		delete(l3Cur, session)
+	}
+	for try := 0; try < 8; try++ {
+		addr := fmt.Sprintf("127.0.0.1:%d", freePort())
+		s := inproc.New(inproc.Config{RtmpGopNum: 1, FlvGopNum: 1, TsGopNum: 1, Hls: true, HlsFragmentMs: 500, Mod: func(lc *logic.Config) {
+			lc.HlsConfig.HttpListenAddr = addr
+			lc.HttpflvConfig.HttpListenAddr = addr
+			lc.HttptsConfig.HttpListenAddr = addr
+			// inproc serves flv/ts below "/" and hls below "/hls/": the same patterns work on one address
+			if session {
+				lc.HlsConfig.SubSessionHashKey = "c13-hash-key"
+				lc.HlsConfig.SubSessionTimeoutMs = 30000
+			}
+		}})
+		runErr := make(chan error, 1)
+		go func() { runErr <- s.SM.RunLoop() }()
+		up := false
+		deadline := time.Now().Add(lalclient.IdleTimeout)
+	wait:
+		for time.Now().Before(deadline) {
+			select {
+			case <-runErr:
+				break wait // a listen failed: another port
+			default:
+			}
+			if line, err := l3Get(addr, "/hls/c13-not-there.m3u8"); err == nil && strings.HasPrefix(line, "HTTP/1.1 ") {
+				up = true
+				break
+			}
+			time.Sleep(2 * time.Millisecond)
+		}
+		if !up {
+			s.Close()
+			continue
+		}
+		e := &l3Env{s: s, addr: addr, session: session, uses: 1}
+		if fd, v := startFeed(s); v == nil {
+			e.fd = fd
+			fd.frames(30)
+		}
+		l3Cur[session] = e
+		return e
+	}
+	lalclient.Harness("c13: could not start lal's HTTP listener on loopback")
+	return nil
+}
+
+func dropL3(session bool) {
+	l3Mu.Lock()
+	defer l3Mu.Unlock()
+	if e := l3Cur[session]; e != nil {
+		e.s.Close()
+		delete(l3Cur, session)
+	}
+}
+
+// runL3 sends the raw request to lal's own listener.  Handler panics are recovered by net/http (read from the standard
+// logger); a fatal error or a panic in a goroutine lal starts kills the process (Isolate).
+func runL3(c HttpCase) *pbt.Violation {
+	if _, err := c.request(); err != nil {
+		return nil
+	}
+	e := l3Server(c.HlsSession)
+	httpLog.take()
+	conn, err := net.DialTimeout("tcp", e.addr, 10*time.Second)
+	if err != nil {
+		dropL3(c.HlsSession)
+		lalclient.Harness("c13: dial lal's http listener %s: %v", e.addr, err)
+	}
+	_, _ = conn.Write(c.raw())
+	if c.Tail != nil {
+		_, _ = conn.Write(c.Tail.Bytes())
+	}
+	// an accepted flv/ts subscription streams for ever: read what comes within a moment, then hang up
+	_ = conn.SetReadDeadline(time.Now().Add(150 * time.Millisecond))
+	resp, _ := io.ReadAll(io.LimitReader(conn, 1<<20))
+	_ = conn.Close()
+	if bytes.HasPrefix(resp, []byte("HTTP/1.1 302")) {
+		// follow a session redirect once, as a player would
+		if i := bytes.Index(resp, []byte("Location: ")); i >= 0 {
+			loc := string(resp[i+10:])
+			if j := strings.IndexAny(loc, "\r\n"); j >= 0 {
+				loc = loc[:j]
+			}
+			_, _ = l3Get(e.addr, loc)
+		}
+	}
+	if e.fd != nil {
+		e.fd.frames(1)
+	}
+	logged := httpLog.take()
+	if strings.Contains(logged, "http: panic serving") {
+		dropL3(c.HlsSession)
+		if fn := pbt.InnermostLalFrame(logged); fn != "" {
+			return pbt.V("panic@"+fn, "net/http recovered a panic in lal's http handler (real listener):\n%s", head(logged, 3000))
+		}
+		lalclient.Harness("c13: panic in lal's http listener without lal frame:\n%s", head(logged, 2000))
+	}
+	if v := e.s.PanicViolation(); v != nil {
+		dropL3(c.HlsSession)
+		return v
+	}
+	// the listener must still answer
+	alive := false
+	for try := 0; try < 3 && !alive; try++ {
+		if line, err := l3Get(e.addr, "/hls/c13-not-there.m3u8"); err == nil && strings.HasPrefix(line, "HTTP/1.1 ") {
+			alive = true
+		}
+	}
+	if !alive {
+		dropL3(c.HlsSession)
+		if stuck, stack := pbt.StuckGoroutine("logic.(*ServerManager).serveHls", 2*time.Second); stuck {
+			return pbt.V("http-listener/no-longer-answers", "lal's http listener does not answer any more; a handler is parked:\n%s", head(stack, 2500))
+		}
+		lalclient.Harness("c13: lal's http listener did not answer the liveness request and no handler is parked (machine too slow?)")
+	}
+	if e.uses%10 == 0 {
+		if v := probe(e.s, e.fd); v != nil {
+			dropL3(c.HlsSession)
+			return v
+		}
+	}
+	return nil
 }
 
 // ---- run: HTTP-API (L3: lal's own net/http server on loopback) -------------------------------
@@ -490,7 +666,8 @@ func runApi(c HttpCase) *pbt.Violation {
 		return v
 	}
 	if e.uses%10 == 0 {
-		if v := probe(e.s); v != nil {
+		// (no bystander oracle here: the API is an administrative surface, kick_session may legitimately end the feed)
+		if v := probe(e.s, nil); v != nil {
 			dropApiServer()
 			return v
 		}
@@ -584,6 +761,7 @@ func classifyHttp(c HttpCase) (bool, []string) {
 }
 
 func TestHttpSubRequest(t *testing.T) {
+	resetNotes()
 	pbt.Run(t, pbt.Spec[HttpCase]{
 		ID: "C13", Name: "http-flv-ts-request", Gen: genHttpCase("sub"), Run: runHttpSub, Classify: classifyHttp, Isolate: true,
 		Quick: 300, Thorough: 1500,
@@ -591,6 +769,7 @@ func TestHttpSubRequest(t *testing.T) {
 }
 
 func TestHlsRequest(t *testing.T) {
+	resetNotes()
 	pbt.Run(t, pbt.Spec[HttpCase]{
 		ID: "C13", Name: "hls-request", Gen: genHttpCase("hls"), Run: runHls, Classify: classifyHttp, Isolate: true,
 		Quick: 250, Thorough: 1500,
@@ -598,8 +777,17 @@ func TestHlsRequest(t *testing.T) {
 }
 
 func TestHttpApiRequest(t *testing.T) {
+	resetNotes()
 	pbt.Run(t, pbt.Spec[HttpCase]{
 		ID: "C13", Name: "http-api-request", Gen: genHttpCase("api"), Run: runApi, Classify: classifyHttp, Isolate: true,
 		Quick: 1000, Thorough: 4000,
+	})
+}
+
+func TestHttpListener(t *testing.T) {
+	resetNotes()
+	pbt.Run(t, pbt.Spec[HttpCase]{
+		ID: "C13", Name: "http-listener-request", Gen: genHttpCase("l3"), Run: runL3, Classify: classifyHttp, Isolate: true,
+		Quick: 150, Thorough: 800,
 	})
 }
